@@ -266,3 +266,7 @@ pub struct TxKernel { pub k: u8 }
 pub mod reward { pub use crate::reward_output as output; }
 #[verifier::external_body]
 pub fn reward_output<K: Keychain, B: ProofBuild>(keychain: &K, builder: &B, key_id: &Identifier, fees: u64, test_mode: bool) -> (r: Result<(Output, TxKernel), libtx::Error>) { unimplemented!() }
+
+// big-endian 8-byte encoding of a u64 (byteorder / grin_core::ser)
+pub uninterp spec fn spec_be64(v: u64) -> Seq<u8>;
+pub struct Ed25519Error { pub c: u8 }
